@@ -21,6 +21,7 @@ rule that matched spelling instead of meaning.  Nothing from /repo is executed; 
   splitor  `if a or b: <leaving body>` -> two ifs
   renamecls private module-level classes renamed consistently across the package (suffix `_k`)
   calltemp a call that is the first argument of a call hoisted into a temporary
+  walrus   `type(x)` / `len(x)` of an if/elif chain cached with `:=` in the first test and re-used in the later ones
 usage: mech_refactor.py [--props C01,C04] [--only rename,flip]"""
 import ast, copy, glob, os, shutil, sys, tempfile
 sys.path.insert(0, os.path.dirname(os.path.dirname(os.path.abspath(__file__))))
@@ -386,8 +387,54 @@ def t_calltemp(tree):
     return _rec_blocks(tree, visit)
 
 
+def t_walrus(tree):
+    """`elif type(d) is A: .. elif type(d) is B:` style chains: the first `type(<name>)` / `len(<name>)` call of an if/elif chain's test is
+    cached with a walrus and re-used in the later tests of the same chain"""
+    counter = [0]
+
+    def visit(stmts):
+        for st in stmts:
+            if not isinstance(st, ast.If):
+                continue
+            chain = [st]
+            while len(chain[-1].orelse) == 1 and isinstance(chain[-1].orelse[0], ast.If):
+                chain.append(chain[-1].orelse[0])
+            if len(chain) < 2:
+                continue
+            first = None
+            for c in ast.walk(chain[0].test):
+                if isinstance(c, ast.Call) and isinstance(c.func, ast.Name) and c.func.id in ("type", "len") and len(c.args) == 1 and isinstance(c.args[0], ast.Name):
+                    first = c
+                    break
+            if first is None:
+                continue
+            text = ast.dump(first)
+            later = [c for link in chain[1:] for c in ast.walk(link.test) if isinstance(c, ast.Call) and ast.dump(c) == text]
+            if not later:
+                continue
+            # only when the first test evaluates the call first (so the name is bound before the later tests)
+            t0 = chain[0].test
+            head = t0.left if isinstance(t0, ast.Compare) else t0
+            if head is not first:
+                continue
+            counter[0] += 1
+            nm = f"cached{counter[0]}_"
+
+            class R(ast.NodeTransformer):
+                def visit_Call(self, n):
+                    if n is first:
+                        return ast.copy_location(ast.NamedExpr(target=ast.Name(id=nm, ctx=ast.Store()), value=n), n)
+                    if ast.dump(n) == text:
+                        return ast.copy_location(ast.Name(id=nm, ctx=ast.Load()), n)
+                    return self.generic_visit(n)
+
+            for link in chain:
+                link.test = R().visit(link.test)
+    return _rec_blocks(tree, visit)
+
+
 TRANSFORMS = {"rename": t_rename, "flip": t_flip, "copy": t_copy, "rettemp": t_rettemp, "elseret": t_elseret, "rename2": t_rename2, "nestand": t_nestand, "guard": t_guard, "testtemp": t_testtemp,
-              "noann": t_noann, "kwargs": t_kwargs, "demorgan": t_demorgan, "renamefn": t_renamefn, "methodorder": t_methodorder, "splitor": t_splitor, "renamecls": t_renamecls, "calltemp": t_calltemp}
+              "noann": t_noann, "kwargs": t_kwargs, "demorgan": t_demorgan, "renamefn": t_renamefn, "methodorder": t_methodorder, "splitor": t_splitor, "renamecls": t_renamecls, "calltemp": t_calltemp, "walrus": t_walrus}
 
 
 def variant(names, files):
